@@ -125,6 +125,27 @@ template <>
 struct quill::Codec<Direct> : quill::DirectFormatCodec<Direct>
 {
 };
+// a direct-format type whose formatter (run on the calling thread while the statement is being sized) throws on demand:
+// the statement is abandoned between sizing and encoding
+struct DirectThrow
+{
+  int n;
+};
+inline bool g_direct_throw = false;
+template <>
+struct fmtquill::formatter<DirectThrow>
+{
+  constexpr auto parse(format_parse_context& ctx) { return ctx.begin(); }
+  auto format(DirectThrow const& v, format_context& ctx) const
+  {
+    if (g_direct_throw) throw std::runtime_error("direct formatter failed");
+    return fmtquill::format_to(ctx.out(), "dt({})", v.n);
+  }
+};
+template <>
+struct quill::Codec<DirectThrow> : quill::DirectFormatCodec<DirectThrow>
+{
+};
 
 // ---- backing storage for pointer-like values ------------------------------------------------------
 
